@@ -1773,8 +1773,8 @@ class Interp:
         if isinstance(obj, (tuple, set, frozenset)) and is_concrete(obj) and all(is_concrete(a) for a in args):
             if name in ("count", "index", "union", "intersection", "difference", "issubset"):
                 return getattr(obj, name)(*args)
-        if isinstance(obj, set) and name in ("add", "discard", "remove", "update", "copy", "clear", "pop") and all(is_concrete(a) and not isinstance(a, (Rec, list, dict)) for a in args if not isinstance(a, (set, frozenset, list, tuple))):
-            # a concrete set of hashable concrete values (strings, numbers, tuples of them): CPython's own set
+        if isinstance(obj, set) and name in ("add", "discard", "remove", "update", "copy", "clear", "pop") and all((is_concrete(a) and not isinstance(a, (Rec, list, dict))) or (isinstance(a, Rec) and "__eq__" not in a.methods and "__hash__" not in a.methods) for a in args if not isinstance(a, (set, frozenset, list, tuple))):
+            # a concrete set of hashable concrete values (strings, numbers, tuples of them; records without __eq__/__hash__: identity): CPython's own set
             try:
                 r = getattr(obj, name)(*args)
             except KeyError:
